@@ -56,7 +56,7 @@ MUTATING = {"setitem", "share", "delitem", "rename", "keep", "remove", "lay", "c
             "slate_rescale"}
 
 FAULT_KINDS = ("open_enoent", "open_eacces", "open_emfile", "open_enospc", "write_enospc", "write_eio",
-               "read_eio", "close_eio", "crash")
+               "read_eio", "close_eio", "rename_eio", "crash")
 
 
 def is_series(x):
@@ -146,6 +146,9 @@ class DataboxWorld(World):
         self.last_fault_seq = -1
 
     def close(self):
+        # which OS routes the code under test took to the simulated disk (beyond plain open/read/write)
+        for k, v in self.fs.os_calls.items():
+            self.probes["oscall_" + k] += v
         simfs._CURRENT["fs"] = None
 
     # -- bookkeeping ------------------------------------------------------------------------------
@@ -614,7 +617,7 @@ class DataboxWorld(World):
             if reading:
                 kinds = [k for k in cfg["fault_kinds"] if k.startswith("open") or k in ("read_eio", "close_eio")]
             else:
-                kinds = [k for k in cfg["fault_kinds"] if k.startswith("open") or k in ("write_enospc", "write_eio", "close_eio", "crash")]
+                kinds = [k for k in cfg["fault_kinds"] if k.startswith("open") or k in ("write_enospc", "write_eio", "close_eio", "rename_eio", "crash")]
             if kinds:
                 kind = flt.choice(sorted(kinds))
                 hi = 3 if kind.startswith("open") or kind == "close_eio" else (40 if plan["short_write"] or plan["short_read"] else 4)
